@@ -4,6 +4,7 @@ import (
 	"github.com/holiman/uint256"
 	ctrlertypes "github.com/rigochain/rigo-go/ctrlers/types"
 	rtypes "github.com/rigochain/rigo-go/types"
+	tmtypes "github.com/tendermint/tendermint/types"
 	"verifharness/internal/appdrv"
 	"verifharness/internal/evmgen"
 )
@@ -59,14 +60,14 @@ func (s *Sim) Scenario() *ScenarioOut {
 	r := s.R
 	nb := nonceBook{}
 	out := &ScenarioOut{}
-	pick := r.Intn(18)
+	pick := r.Intn(23)
 	forced := false
 	if s.ForceScenario > 0 {
 		pick = s.ForceScenario - 1
 		s.ForceScenario = 0
 		forced = true
 	}
-	if !forced && pick >= 16 {
+	if !forced && pick >= 20 {
 		pick = 4 // the proposal life cycle is the longest template: give it more weight
 	}
 	switch pick {
@@ -224,7 +225,11 @@ func (s *Sim) Scenario() *ScenarioOut {
 			joiner = us[1]
 		}
 		out.deliver = append(out.deliver, s.specN(nb, s.Keys[st.Owner], ctrlertypes.TRX_UNSTAKING, st.To, nil, &ctrlertypes.TrxPayloadUnstaking{TxHash: st.Hash}).Build())
-		out.deliver = append(out.deliver, s.specN(nb, joiner, ctrlertypes.TRX_STAKING, st.To, Rigo(uint64(st.Power)), nil).Build())
+		target := st.To
+		if w := s.someValidator(); w != nil && r.Bool() {
+			target = w.Addr // the power MOVES to another validator: the number of validators and the power sum stay the same
+		}
+		out.deliver = append(out.deliver, s.specN(nb, joiner, ctrlertypes.TRX_STAKING, target, Rigo(uint64(st.Power)), nil).Build())
 	case 9: // several pieces of evidence against one validator in ONE block while it is a voter of an open proposal
 		var open bool
 		for _, p := range s.Props {
@@ -399,6 +404,102 @@ func (s *Sim) Scenario() *ScenarioOut {
 			})
 		}
 		s.PendingEvidence = append(s.PendingEvidence, v.Addr)
+	case 16: // a validator stops signing; two blocks later (it earned nothing in that block) it withdraws a little of its
+		// reward, and the node is restarted after the commit: the withdrawal must be in what was persisted
+		v := s.someValidator()
+		if v == nil {
+			return nil
+		}
+		vs := s.valset(s.Height)
+		for i := range vs {
+			if string(vs[i].Addr) == string(v.Addr) {
+				s.absentIdx, s.absentLeft = i, 4
+			}
+		}
+		s.scnA, s.scnH = v, s.Height+2
+		s.ForceScenario = 18
+	case 17: // second phase of 16
+		v := s.scnA
+		if v == nil {
+			return nil
+		}
+		if s.Height < s.scnH {
+			s.ForceScenario = 18
+			return nil
+		}
+		out.deliver = append(out.deliver, s.specN(nb, v, ctrlertypes.TRX_WITHDRAW, v.Addr, nil, &ctrlertypes.TrxPayloadWithdraw{ReqAmt: uint256.NewInt(uint64(r.Range(1, 1000)))}).Build())
+		s.RestartAfterCommit = true
+		s.scnA = nil
+	case 18: // a contract that burns all its gas is called with a 6M gas limit once per block, five blocks in a row:
+		// the 25M block gas pool must be refilled by every BeginBlock
+		if !s.Opt.WithEVM {
+			return nil
+		}
+		us := s.userKeys(1)
+		if len(us) < 1 {
+			return nil
+		}
+		var burner *ContractRef
+		for i := range s.Contracts {
+			if s.Contracts[i].Prog.Name == "gasburner" {
+				burner = &s.Contracts[i]
+			}
+		}
+		if burner == nil {
+			p := evmgen.Program{Name: "gasburner", Init: evmgen.GasBurnerInit()}
+			s.PendingProg[string(p.Init)] = p
+			out.deliver = append(out.deliver, s.specN(nb, us[0], ctrlertypes.TRX_CONTRACT, rtypes.ZeroAddress(), nil, &ctrlertypes.TrxPayloadContract{Data: p.Init}).Build())
+			s.ForceScenario = 19
+			return out
+		}
+		sp := s.specN(nb, us[0], ctrlertypes.TRX_CONTRACT, burner.Addr, nil, &ctrlertypes.TrxPayloadContract{Data: nil})
+		sp.Gas = 6000000
+		out.deliver = append(out.deliver, sp.Build())
+		s.scnBurns++
+		if s.scnBurns < 5 {
+			s.ForceScenario = 19
+		} else {
+			s.scnBurns = 0
+			// a cheap ordinary call after the series must still find gas in the pool
+			for i := range s.Contracts {
+				if s.Contracts[i].Prog.Name == "counter" {
+					out.deliver = append(out.deliver, s.specN(nb, us[0], ctrlertypes.TRX_CONTRACT, s.Contracts[i].Addr, nil, &ctrlertypes.TrxPayloadContract{Data: nil}).Build())
+					break
+				}
+			}
+		}
+	case 19: // an account self-stakes; in a later block it releases that (only) stake — its delegatee record is deleted —
+		// and self-stakes twice more in the SAME block: delete, re-create and update of one ledger key in one block
+		us := s.userKeys(3)
+		var u *appdrv.Key
+		for _, k := range us {
+			isVal := false
+			for _, v := range s.lastValidatorKeys() {
+				if string(v.Addr) == string(k.Addr) {
+					isVal = true
+				}
+			}
+			if !isVal {
+				u = k
+			}
+		}
+		if u == nil {
+			return nil
+		}
+		sp := s.specN(nb, u, ctrlertypes.TRX_STAKING, u.Addr, Rigo(uint64(r.Range(6, 12))), nil)
+		bz := sp.Build()
+		out.deliver = append(out.deliver, bz)
+		s.scnA, s.scnHash = u, tmtypes.Tx(bz).Hash()
+		s.ForceScenario = 21
+	case 20: // second phase of 19
+		u := s.scnA
+		if u == nil || s.scnHash == nil {
+			return nil
+		}
+		out.deliver = append(out.deliver, s.specN(nb, u, ctrlertypes.TRX_UNSTAKING, u.Addr, nil, &ctrlertypes.TrxPayloadUnstaking{TxHash: s.scnHash}).Build())
+		out.deliver = append(out.deliver, s.specN(nb, u, ctrlertypes.TRX_STAKING, u.Addr, Rigo(uint64(r.Range(6, 9))), nil).Build())
+		out.deliver = append(out.deliver, s.specN(nb, u, ctrlertypes.TRX_STAKING, u.Addr, Rigo(uint64(r.Range(1, 5))), nil).Build())
+		s.scnA, s.scnHash = nil, nil
 	case 6: // a contract transaction sent by / sent to / touching the proposer of this block
 		if !s.Opt.WithEVM || s.Cur == nil || len(s.Cur.Proposer) == 0 || len(s.Contracts) == 0 {
 			return nil
